@@ -23,7 +23,8 @@ type Decision struct {
 	K   int `json:"k,omitempty"`
 	// Refused is a bit set of calls the Reader must refuse, issued at this position:
 	// 1 StepIn on a scalar or null; 2 an accessor of another type; 4 StepOut at top level (depth 0 only);
-	// 8 StepIn again right after a successful StepIn; 16 every accessor of another type.
+	// 8 StepIn again right after a successful StepIn; 16 every accessor of another type;
+	// 32 (not a refused call) read the value twice and ask Type / IsNull / FieldName / Annotations again afterwards.
 	Refused int `json:"r,omitempty"`
 }
 
@@ -341,6 +342,22 @@ func (w *walker) level(depth int, limit int) []*Node {
 				o.Val = "nil"
 			} else if read {
 				o.Val = w.scalar(t)
+				if d.Refused&32 != 0 {
+					// the same accessor once more: it must answer the same (reading a value is not consuming it)
+					if again := w.scalar(t); again != o.Val {
+						o.Val += "!second-read=" + again
+					}
+					// ... and so must the descriptive calls after the value was read
+					if r.Type() != t || r.IsNull() != o.Null {
+						o.Val += "!type-or-null-changed-after-read"
+					}
+					if fn2, err := r.FieldName(); err == nil && ((fn2 == nil) != (fn == nil) || (fn2 != nil && tokStr(fn2) != o.Field)) {
+						o.Val += "!field-name-changed-after-read"
+					}
+					if as2, err := r.Annotations(); err == nil && annStr(as2) != o.Annots {
+						o.Val += "!annotations-changed-after-read"
+					}
+				}
 			}
 			w.out.Lines = append(w.out.Lines, o.Line(read))
 			if w.build {
